@@ -227,7 +227,12 @@ def run_units(prop, sidecars, tier, keep=False):
                         try:
                             cex = concrete_playback(sc, h)
                             if cex:
-                                f["counterexample"] = cex.get("values")
+                                rt0 = cex.get("replay_test")
+                                if rt0 is None or rt0.get("fails_on_real_code"):
+                                    f["counterexample"] = cex.get("values")
+                                else:
+                                    f["counterexample"] = None
+                                    f["rendered"] += "\n(Kani's values " + json.dumps(cex.get("values")) + " did not reproduce as a failing #[test] on the real code: reported without a failing input)"
                                 f["replay_test"] = cex.get("replay_test")
                                 f["replay_output"] = cex.get("replay_output")
                                 f["rendered"] += "\n--- concrete playback ---\n" + cex.get("raw", "")[:3000]
@@ -260,14 +265,26 @@ def decode_vals(raw, types):
     # the first `vec![` match may be the outer one (empty match) — drop empties that precede data
     vals = [v for v in vals if v]
     out = []
-    for i, t in enumerate(types):
-        if i >= len(vals):
+    pos = 0
+    for t in types:
+        if pos >= len(vals):
             break
-        b = vals[i]
+        m = re.fullmatch(r"bytes(\d+)", t)
+        if m:
+            # an array [u8; N] is generated as N one-byte values
+            n = int(m.group(1))
+            if len(vals[pos]) == n:
+                bs = vals[pos]
+                pos += 1
+            else:
+                bs = [v[0] for v in vals[pos:pos + n]]
+                pos += n
+            out.append("[" + ", ".join(str(x) for x in bs) + "]")
+            continue
+        b = vals[pos]
+        pos += 1
         if t == "bool":
             out.append("true" if b[0] else "false")
-        elif t.startswith("bytes"):
-            out.append("[" + ", ".join(str(x) for x in b) + "]")
         else:
             out.append(str(int.from_bytes(bytes(b), "little")) + t)
     return out
@@ -292,7 +309,12 @@ def concrete_playback(sc, h):
         res["replay_test"] = rt
         rc2, out2 = run_replay_test(rt, have_lock=True)
         res["replay_output"] = out2[-2500:]
-        rt["fails_on_real_code"] = rc2 != 0
+        ran = "test result:" in out2
+        rt["fails_on_real_code"] = bool(ran and rc2 != 0 and ("test result: FAILED" in out2 or "panicked" in out2))
+        rt["replay_ran"] = ran
+        if not ran:
+            # the replay did not build/run: no counterexample claim is made from it
+            res["values_unreplayed"] = res.get("values")
     return res
 
 
